@@ -1,12 +1,45 @@
-// C09 — stand-ins for chrono::TimeDelta (an integer number of seconds, totally ordered) and price_db::PriceSource.
-pub struct TimeDelta { pub secs: i64 }
-impl Clone for TimeDelta { fn clone(&self) -> (r: Self) ensures r == *self { TimeDelta { secs: self.secs } } }
-impl Copy for TimeDelta {}
-/// `std::cmp::max` on TimeDelta (ASSUMED: Ord for TimeDelta is the order of its length)
-#[verifier::external_body]
-pub fn timedelta_max(a: TimeDelta, b: TimeDelta) -> (r: TimeDelta)
-    ensures r == (if a.secs >= b.secs { a } else { b }),
-{ unimplemented!() }
-#[derive(Clone, Copy, PartialEq, Eq)]
-pub enum PriceSource { Ledger, PriceDB }
+// C09 - specs over the extracted price_db types (Distance, WithDistance, Entry).
 pub struct SingleAmountStub { pub value: Decimal, pub commodity: Commodity }
+impl SingleAmountStub {
+    /// eval::SingleAmount::from_value (its contract is proved in the amount groups): the two fields as given
+    #[verifier::external_body]
+    pub fn from_value(value: Decimal, commodity: Commodity) -> (r: Self) ensures r.value == value, r.commodity == commodity { unimplemented!() }
+}
+// R13 - what `#[derive(PartialEq, Eq, PartialOrd, Ord)]` on `Distance` expands to: comparison field by field in declaration
+// order (the order of the fields is pinned by the anchor `Distance field order`).  ASSUMED: TimeDelta is ordered by its length.
+pub open spec fn dist_cmp(x: Distance, y: Distance) -> core::cmp::Ordering {
+    if x.num_ledger_conversions < y.num_ledger_conversions { core::cmp::Ordering::Less }
+    else if x.num_ledger_conversions > y.num_ledger_conversions { core::cmp::Ordering::Greater }
+    else if x.num_all_conversions < y.num_all_conversions { core::cmp::Ordering::Less }
+    else if x.num_all_conversions > y.num_all_conversions { core::cmp::Ordering::Greater }
+    else if x.staleness.secs < y.staleness.secs { core::cmp::Ordering::Less }
+    else if x.staleness.secs > y.staleness.secs { core::cmp::Ordering::Greater }
+    else { core::cmp::Ordering::Equal }
+}
+impl PartialEqSpecImpl for Distance {
+    open spec fn obeys_eq_spec() -> bool { true }
+    open spec fn eq_spec(&self, o: &Distance) -> bool { *self == *o }
+}
+impl PartialEq for Distance { #[verifier::external_body] fn eq(&self, o: &Distance) -> bool { unimplemented!() } }
+impl Eq for Distance {}
+impl PartialOrdSpecImpl for Distance {
+    open spec fn obeys_partial_cmp_spec() -> bool { true }
+    open spec fn partial_cmp_spec(&self, o: &Distance) -> Option<core::cmp::Ordering> { Some(dist_cmp(*self, *o)) }
+}
+impl PartialOrd for Distance { #[verifier::external_body] fn partial_cmp(&self, o: &Distance) -> Option<core::cmp::Ordering> { unimplemented!() } }
+// R8 - spec side of the hand-written comparisons of `WithDistance<T>` with a `Distance` (their bodies are extracted and proved):
+// a table entry compares as its distance does
+impl<T> PartialEqSpecImpl<Distance> for WithDistance<T> {
+    open spec fn obeys_eq_spec() -> bool { true }
+    open spec fn eq_spec(&self, o: &Distance) -> bool { self.0 == *o }
+}
+impl<T: Eq> PartialOrdSpecImpl<Distance> for WithDistance<T> {
+    open spec fn obeys_partial_cmp_spec() -> bool { true }
+    open spec fn partial_cmp_spec(&self, o: &Distance) -> Option<core::cmp::Ordering> { Some(dist_cmp(self.0, *o)) }
+}
+
+/// the prices recorded for "one `of` in `with`" (None: none)
+pub open spec fn slot(recs: Map<Commodity, HashMap<Commodity, Entry>>, with: Commodity, of: Commodity) -> Option<Entry> {
+    if recs.contains_key(with) && recs[with]@.contains_key(of) { Some(recs[with]@[of]) } else { None }
+}
+
